@@ -717,6 +717,10 @@ impl TcpStream {
     pub fn sim_delivered(&self) -> u64 {
         self.inner.lock().net.eps[self.ep].delivered_total
     }
+    /// Copy of the bytes delivered and not yet read.
+    pub fn sim_peek(&self) -> Vec<u8> {
+        self.inner.lock().net.eps[self.ep].rx.iter().copied().collect()
+    }
     /// Bytes delivered and not yet read.
     pub fn sim_unread(&self) -> usize {
         self.inner.lock().net.eps[self.ep].rx.len()
